@@ -9,56 +9,50 @@ from ..core import key
 from ..model import norm, walk_no_nested
 from ..q import find
 from .. import buf
+from ..buf import P, FROM, names_for, spec_text
 
 # Discovery responses have a fixed format ("well-framed" in the property's words): (attribute, guaranteed length, clause)
 FRAMING = {
-    'target.sens_res': (2, 'SENS_RES is 2 byte (NFC Digital 4.6)'),
-    'target.sel_res': (1, 'SEL_RES is 1 byte (NFC Digital 4.8)'),
-    'target.sdd_res': (4, 'NFCID1 is 4, 7 or 10 byte'),
-    'target.rid_res': (6, 'RID_RES is HR0 HR1 UID0..3'),
-    'target.sensb_res': (12, 'SENSB_RES is 12 or 13 byte (NFC Digital 5.6)'),
-    'target.sensf_res': (17, 'SENSF_RES is 17 or 19 byte (NFC Digital 6.6)'),
+    'sens_res': (2, 'SENS_RES is 2 byte (NFC Digital 4.6)'),
+    'sel_res': (1, 'SEL_RES is 1 byte (NFC Digital 4.8)'),
+    'sdd_res': (4, 'NFCID1 is 4, 7 or 10 byte'),
+    'rid_res': (6, 'RID_RES is HR0 HR1 UID0..3'),
+    'sensb_res': (12, 'SENSB_RES is 12 or 13 byte (NFC Digital 5.6)'),
+    'sensf_res': (17, 'SENSF_RES is 17 or 19 byte (NFC Digital 6.6)'),
 }
 
 # (function, buffer expression, base length guaranteed by the framing or by the callee, where the bytes come from)
 TAG_BUFFERS = [
-    ('nfc.tag.activate', 'target.sens_res', None, 'discovery response'),
-    ('nfc.tag.activate', 'target.sel_res', None, 'discovery response'),
-    ('nfc.tag.tt1.Type1Tag.__init__', 'target.rid_res', None, 'discovery response'),
-    ('nfc.tag.tt1_broadcom.activate', 'target.rid_res', None, 'discovery response'),
-    ('nfc.tag.tt2.activate', 'target.sdd_res', None, 'discovery response'),
-    ('nfc.tag.tt3.Type3Tag.__init__', 'target.sensf_res', None, 'discovery response'),
-    ('nfc.tag.tt3.activate', 'target.sensf_res', None, 'discovery response'),
-    ('nfc.tag.tt3_sony.activate', 'target.sensf_res', None, 'discovery response'),
-    ('nfc.tag.tt4.Type4BTag.__init__', 'target.sensb_res', None, 'discovery response'),
-    ('nfc.tag.tt4.Type4ATag.__init__', 'rats_res', 0, 'answer to select (ATS)'),
-    ('nfc.tag.tt4.Type4BTag.__init__', 'attrib_res', 0, 'ATTRIB response'),
-    ('nfc.tag.tt4.IsoDepInitiator.exchange', 'data', 0, 'ISO-DEP block'),
-    ('nfc.tag.tt4.Type4Tag.send_apdu', 'apdu', 0, 'response APDU'),
-    ('nfc.tag.tt4.Type4Tag.NDEF._discover_ndef', 'cclen', 0, 'READ BINARY response'),
-    ('nfc.tag.tt4.Type4Tag.NDEF._discover_ndef', 'capabilities', 0, 'READ BINARY response'),
+    ('nfc.tag.activate', P(1, 'sens_res'), 'sens_res', 'discovery response'),
+    ('nfc.tag.activate', P(1, 'sel_res'), 'sel_res', 'discovery response'),
+    ('nfc.tag.tt1.Type1Tag.__init__', P(1, 'rid_res'), 'rid_res', 'discovery response'),
+    ('nfc.tag.tt1_broadcom.activate', P(1, 'rid_res'), 'rid_res', 'discovery response'),
+    ('nfc.tag.tt2.activate', P(1, 'sdd_res'), 'sdd_res', 'discovery response'),
+    ('nfc.tag.tt3.Type3Tag.__init__', P(1, 'sensf_res'), 'sensf_res', 'discovery response'),
+    ('nfc.tag.tt3.activate', P(1, 'sensf_res'), 'sensf_res', 'discovery response'),
+    ('nfc.tag.tt3_sony.activate', P(1, 'sensf_res'), 'sensf_res', 'discovery response'),
+    ('nfc.tag.tt4.Type4BTag.__init__', P(1, 'sensb_res'), 'sensb_res', 'discovery response'),
+    ('nfc.tag.tt4.Type4ATag.__init__', FROM('self.clf.exchange'), 0, 'answer to select (ATS)'),
+    ('nfc.tag.tt4.Type4BTag.__init__', FROM('self.clf.exchange'), 0, 'ATTRIB response'),
+    ('nfc.tag.tt4.IsoDepInitiator.exchange', FROM('self.clf.exchange'), 0, 'ISO-DEP block'),
+    ('nfc.tag.tt4.Type4Tag.send_apdu', FROM('self.transceive'), 0, 'response APDU'),
+    ('nfc.tag.tt4.Type4Tag.NDEF._discover_ndef', FROM('self._read_binary'), 0, 'READ BINARY response'),
     ('nfc.tag.tt4.Type4Tag.NDEF._discover_ndef', 'val', 0, 'NDEF file control TLV value'),
-    ('nfc.tag.tt4.Type4Tag.NDEF._read_ndef_data', 'nlen', 0, 'READ BINARY response'),
-    ('nfc.tag.tt3.Type3Tag.send_cmd_recv_rsp', 'rsp', 0, 'Type 3 Tag response frame'),
-    ('nfc.tag.tt3.Type3Tag.polling', 'data', 0, 'polling response'),
-    ('nfc.tag.tt3.Type3Tag.read_without_encryption', 'data', 0, 'read response'),
-    ('nfc.tag.tt3.Type3Tag.NDEF._read_attribute_data', 'data', 0, 'attribute block'),
-    ('nfc.tag.tt3_sony.FelicaLiteS.NDEF._read_attribute_data', 'mc', 0, 'MC block'),
-    ('nfc.tag.tt3_sony.FelicaLite.read_without_mac', 'data', 0, 'read response'),
-    ('nfc.tag.tt3_sony.FelicaLite.read_with_mac', 'data', 0, 'read response'),
-    ('nfc.tag.tt1.Type1Tag.read_id', 'rsp', 0, 'RID response'),
-    ('nfc.tag.tt1.Type1Tag.read_all', 'rsp', 0, 'RALL response'),
-    ('nfc.tag.tt1.Type1Tag.read_byte', 'rsp', 0, 'READ response'),
-    ('nfc.tag.tt1.Type1Tag.read_block', 'rsp', 0, 'READ8 response'),
-    ('nfc.tag.tt1.Type1Tag.read_segment', 'rsp', 0, 'RSEG response'),
-    ('nfc.tag.tt1.get_lock_byte_range', 'data', 'callers', 'lock control TLV value'),
-    ('nfc.tag.tt1.get_rsvd_byte_range', 'data', 'callers', 'memory control TLV value'),
-    ('nfc.tag.tt2.get_lock_byte_range', 'data', 'callers', 'lock control TLV value'),
-    ('nfc.tag.tt2.get_rsvd_byte_range', 'data', 'callers', 'memory control TLV value'),
-    ('nfc.tag.tt2.Type2Tag.read', 'data', 0, 'READ response'),
-    ('nfc.tag.tt2.Type2Tag.sector_select', 'rsp', 0, 'SECTOR SELECT response'),
-    ('nfc.tag.tt2_nxp.activate', 'rsp', 0, 'GET_VERSION / AUTHENTICATE response'),
-    ('nfc.tag.tt2_nxp.activate', 'version', 0, 'GET_VERSION response'),
+    ('nfc.tag.tt4.Type4Tag.NDEF._read_ndef_data', FROM('self._read_binary'), 0, 'READ BINARY response'),
+    ('nfc.tag.tt3.Type3Tag.send_cmd_recv_rsp', FROM('self.clf.exchange'), 0, 'Type 3 Tag response frame'),
+    ('nfc.tag.tt3.Type3Tag.polling', FROM('self.send_cmd_recv_rsp'), 0, 'polling response'),
+    ('nfc.tag.tt3.Type3Tag.read_without_encryption', FROM('self.send_cmd_recv_rsp'), 0, 'read response'),
+    ('nfc.tag.tt3.Type3Tag.NDEF._read_attribute_data', FROM('self._tag.read_from_ndef_service'), 0, 'attribute block'),
+    ('nfc.tag.tt3_sony.FelicaLiteS.NDEF._read_attribute_data', FROM('self._tag.read_without_mac'), 0, 'MC block'),
+    ('nfc.tag.tt3_sony.FelicaLite.read_with_mac', FROM('self.read_without_encryption'), 0, 'read response'),
+    ('nfc.tag.tt1.Type1Tag.read_segment', FROM('self.transceive'), 0, 'RSEG response'),
+    ('nfc.tag.tt1.get_lock_byte_range', P(0), 'callers', 'lock control TLV value'),
+    ('nfc.tag.tt1.get_rsvd_byte_range', P(0), 'callers', 'memory control TLV value'),
+    ('nfc.tag.tt2.get_lock_byte_range', P(0), 'callers', 'lock control TLV value'),
+    ('nfc.tag.tt2.get_rsvd_byte_range', P(0), 'callers', 'memory control TLV value'),
+    ('nfc.tag.tt2.Type2Tag.read', FROM('self.transceive'), 0, 'READ response'),
+    ('nfc.tag.tt2.Type2Tag.sector_select', FROM('self.transceive'), 0, 'SECTOR SELECT response'),
+    ('nfc.tag.tt2_nxp.activate', FROM('clf.exchange', 'bytes(clf.exchange'), 0, 'GET_VERSION / AUTHENTICATE response'),
 ]
 
 
@@ -124,15 +118,19 @@ def run(report, prog, res, collect, RULE='C08-R4', extra_buffers=()):
     report.check(okk4, RULE, key(rd.qname, 'returns exactly 16 byte'), rd.loc(), 'Type2Tag.read length test changed')
     if okk4:
         sources[r're:self\.read\([\w.]+\)'] = 16
-    report.trusted.append('discovery responses are well-framed: ' + '; '.join('%s >= %d (%s)' % (k.split('.')[1], v[0], v[1]) for k, v in sorted(FRAMING.items())))
-    for q, v, base, src in list(TAG_BUFFERS) + list(extra_buffers):
+    report.trusted.append('discovery responses are well-framed: ' + '; '.join('%s >= %d (%s)' % (k, v[0], v[1]) for k, v in sorted(FRAMING.items())))
+    for q, spec, base, src in list(TAG_BUFFERS) + list(extra_buffers):
         f = prog.functions.get(q)
         if f is None:
-            report.fail(RULE, key(q, 'function exists'), 'src/nfc', 'tag buffer table names a function that no longer exists: ' + q)
+            report.deficits.append('%s: the tag buffer table names a function that no longer exists: %s' % (RULE, q))
             continue
-        if base is None:
-            base = FRAMING[v][0]
+        if isinstance(base, str) and base in FRAMING:
+            base = FRAMING[base][0]
         elif base == 'callers':
             base = bases[q]
-        n += buf.check(report, prog, f, v, RULE, src, base=base, sources=sources, collect=collect)
+        names = names_for(f, spec)
+        if not names:
+            report.deficits.append('%s: %s has no buffer for %s any more (%s): the table entry is stale' % (RULE, q, spec_text(spec), src))
+        for v in names:
+            n += buf.check(report, prog, f, v, RULE, src, base=base, sources=sources, collect=collect)
     report.floor(RULE + ' reads', n, 40)
